@@ -1,7 +1,7 @@
 //! C04 -- a successful parse consumes exactly the declared message and makes progress.
 //! Oracle computed from the input bytes alone (no reference decoder needed):
 //!   base = 0 (no storage header) | first pattern offset + 16; LEN = big-endian u16 at base+2;
-//!   Ok((rest, Item|FilteredOut(n))) => rest == input[base+LEN..], n == LEN - headers(HTYP);
+//!   Ok((rest, Item|FilteredOut(n)|Invalid)) => rest == input[base+LEN..], n == LEN - headers(HTYP);
 //!   dlt_consume_msg Ok((rest, Some(c))) => rest == input[16+LEN..], c == 16+LEN;
 //!   remainders with and without filter coincide; repeated parsing visits exactly the boundaries.
 use crate::common::*;
@@ -55,10 +55,8 @@ pub fn judge(input: &[u8], with_storage: bool, filters: &[(&'static str, Option<
             }
             Ok(Ok(x)) => x,
         };
-        if let ParsedMessage::Invalid = pm {
-            loc.outcome("Invalid (not judged)");
-            continue;
-        }
+        // an Ok result is a success whatever it carries - also the `Invalid` marker: a caller goes
+        // on from the remainder it was handed
         any_ok = true;
         let off = input.len() - rest_len;
         // the remainder must be a sub-slice of the input ending at its end
@@ -90,6 +88,8 @@ pub fn judge(input: &[u8], with_storage: bool, filters: &[(&'static str, Option<
                 continue;
             }
             loc.outcome("filtered out, aligned");
+        } else if let ParsedMessage::Invalid = pm {
+            loc.outcome("invalid marker, aligned");
         } else {
             loc.outcome("item, aligned");
         }
@@ -168,7 +168,7 @@ fn judge_loop(input: &[u8], with_storage: bool, loc: &mut Local) {
 pub fn run(ctx: &Ctx) {
     ctx.enable_trace_pass(ctx.tier.pick(20000u64, 200000u64));
     ctx.set_rule("case = (byte string, storage mode), judged under 5 filter configurations plus the message skipper; expected boundaries are computed from the input bytes alone; non-trivial = at least one call returned Ok (the premise of the property)");
-    ctx.assume("ParsedMessage::Invalid is counted but not judged (the statement speaks of returned, filtered-out and skipped messages)");
+    ctx.assume("an Ok result carrying ParsedMessage::Invalid is a success like any other: its remainder is judged (the unchanged tree never returns it)");
     let filters = filter_configs();
     let filters = &filters;
     {
